@@ -418,7 +418,7 @@ func runC12(c *vk.Ctx) {
 	c.R.Rule = "cases = (method, operand pair) drawn from a seed-determined generator mixing zero, ulps, powers of ten ±ulp, constructed rounding ties (both parities) and near-ties whose distance from the tie shows only somewhere in decimals 38..72, whole numbers, 18-in-36-decimal values, log-uniform bit lengths up to the 1144/1024-bit bounds and values adjacent to the bound, both signs; each result compared with exact big.Int arithmetic. distinct_nontrivial counts distinct (method, sign of operand A, sign of operand B, outcome class) where outcome class ∈ {exact, rounded up, rounded down, tie→up, tie→down, overflow-panic, div-by-zero-panic, encoding round trip}."
 	ops := bdOps()
 	uops := bdUnOps()
-	nBin := c.N(60000, 6000000)
+	nBin := c.N(300000, 6000000)
 	c.Cases("bigdec-binary", nBin, func(i int, r *vk.Rng) {
 		op := ops[i%len(ops)]
 		var ai, bi *big.Int
@@ -534,7 +534,7 @@ func runC12(c *vk.Ctx) {
 		}
 	})
 
-	c.Cases("bigdec-unary", c.N(30000, 2000000), func(i int, r *vk.Rng) {
+	c.Cases("bigdec-unary", c.N(120000, 2000000), func(i int, r *vk.Rng) {
 		op := uops[i%len(uops)]
 		ai := genScaled(r, 36, bdMaxBit)
 		if r.Intn(4) == 0 { // exact halves for RoundInt ties
@@ -584,7 +584,7 @@ func runC12(c *vk.Ctx) {
 	})
 
 	// precision conversions with a precision argument, encodings, comparisons
-	c.Cases("bigdec-conv", c.N(20000, 1500000), func(i int, r *vk.Rng) {
+	c.Cases("bigdec-conv", c.N(80000, 1500000), func(i int, r *vk.Rng) {
 		ai := genScaled(r, 36, biMaxBit) // decode bound is 1024 bits
 		a := mkBD(ai)
 		c.Eval(1)
@@ -714,7 +714,7 @@ func runC12(c *vk.Ctx) {
 	})
 
 	// DivIntByU64ToBigDec: the rounding-direction bridge used by stableswap scaling
-	c.Cases("div-int-u64", c.N(10000, 600000), func(i int, r *vk.Rng) {
+	c.Cases("div-int-u64", c.N(40000, 600000), func(i int, r *vk.Rng) {
 		n := r.BigBits(1 + r.Intn(250))
 		if r.Intn(3) == 0 {
 			n.Neg(n)
@@ -803,7 +803,7 @@ func runC12Int(c *vk.Ctx) {
 			return m
 		}, false},
 	}
-	c.Cases("bigint", c.N(20000, 1500000), func(i int, r *vk.Rng) {
+	c.Cases("bigint", c.N(80000, 1500000), func(i int, r *vk.Rng) {
 		op := ops[i%len(ops)]
 		ai, bi := genScaled(r, 0, biMaxBit), genScaled(r, 0, biMaxBit)
 		if r.Intn(3) == 0 {
@@ -894,7 +894,7 @@ func runC12Dec(c *vk.Ctx) {
 			return divHalfEven(divTrunc(new(big.Int).Mul(a, e36), b), e18)
 		}},
 	}
-	c.Cases("dec18", c.N(16000, 800000), func(i int, r *vk.Rng) {
+	c.Cases("dec18", c.N(64000, 800000), func(i int, r *vk.Rng) {
 		op := ops[i%len(ops)]
 		ai, bi := genScaled(r, 18, 250), genScaled(r, 18, 250)
 		if r.Intn(5) == 0 {
